@@ -405,6 +405,10 @@ func GenSpec(t *rapid.T, o Opts) *Spec {
 	if ri(t, 0, 4, "ws-style") == 0 {
 		s.Style |= ri(t, 1, 3, "ws-bits") << 1
 	}
+	if len(s.Macros) > 0 && len(s.Modes[0].Rules) > 0 && ri(t, 0, 3, "late-macros") == 0 {
+		// macros declared after some of the rules that use them (forward references are accepted)
+		s.Style |= 8 | ri(t, 0, 15, "macros-after")<<4
+	}
 	return s
 }
 
